@@ -87,6 +87,11 @@ func classifyBlocking(in ssa.Instruction) (blockOp, bool) {
 		}
 	case *ssa.Select:
 		if x.Blocking {
+			if _, _, ok := deliverSelect(x); ok {
+				// a delivery to a call that may be slower than the node: waits for the call's loop to take the
+				// reply, but not beyond the call's completion (router.done)
+				return blockOp{at: x, kind: "deliver", desc: "delivery to a router, bounded by the router's done channel", sel: x, chanT: x.States[0].Chan.Type()}, true
+			}
 			return blockOp{at: x, kind: "select", desc: fmt.Sprintf("select with %d cases", len(x.States)), sel: x}, true
 		}
 	case *ssa.Call:
@@ -268,4 +273,47 @@ func selectCasesDesc(sel *ssa.Select) string {
 		cs = append(cs, d+sx.OriginsString(sx.Origins(st.Chan)))
 	}
 	return strings.Join(cs, " | ")
+}
+
+// deliverSelect recognises `select { case router.c <- resp: ; case <-router.done: }`:
+// exactly two states, a send on the reply channel field of a responseRouter
+// value and a receive from another channel field of the same router value.
+// It returns the indices of the send and of the done state.
+func deliverSelect(sel *ssa.Select) (send, done int, ok bool) {
+	if !sel.Blocking || len(sel.States) != 2 {
+		return 0, 0, false
+	}
+	send, done = -1, -1
+	for i, st := range sel.States {
+		switch {
+		case st.Dir == types.SendOnly && isResponseChan(st.Chan.Type()):
+			send = i
+		case st.Dir == types.RecvOnly:
+			done = i
+		}
+	}
+	if send < 0 || done < 0 {
+		return 0, 0, false
+	}
+	routerField := func(v ssa.Value) (string, bool) {
+		base := ""
+		okAll := sx.All(sx.Origins(v), func(o sx.Origin) bool {
+			if o.Kind != sx.KField || o.Field == nil || o.Field.Pkg() == nil || o.Field.Pkg().Path() != core.RootModule {
+				return false
+			}
+			b := sx.OriginsString(o.Base)
+			if base != "" && base != b {
+				return false
+			}
+			base = b
+			return true
+		})
+		return base, okAll && base != ""
+	}
+	b1, ok1 := routerField(sel.States[send].Chan)
+	b2, ok2 := routerField(sel.States[done].Chan)
+	if !ok1 || !ok2 || b1 != b2 {
+		return 0, 0, false
+	}
+	return send, done, true
 }
